@@ -201,7 +201,13 @@ def run_cases(build, driver, cases, timeout_s=10, isolate=False):
             allver.update(ver)
     out = []
     for i, c in enumerate(cases):
-        out.append(dict(case=c, result=allres.get(str(i), "CRASH no result"), verdict=allver.get(str(i), "error no verdict")))
+        r = allres.get(str(i), "CRASH no result")
+        v = allver.get(str(i), "error no verdict")
+        if r.startswith("OPDISABLED"):
+            # the histories of this utility class no longer compile against the tree under test (build_repo switched the op off)
+            v = (f"mismatch the harness code for kind `{c.split(' ', 1)[0]}` does not compile against the tree under test: the "
+                 "correspondence between this utility class and its model cannot be checked")
+        out.append(dict(case=c, result=r, verdict=v))
     return out
 
 
